@@ -106,12 +106,16 @@ def findings():
         X = inv(ops.Transpose(ops.Identity((3, 3), np.float64)), cola.linalg.GMRES(max_iters=4))
         B = np.array([[1., 2.], [0., 1.], [3., 0.]])
         Y = np.asarray(X @ B)
-        # second witness (still failing after the first repair of the padding logic): a complex multiple of the identity, max_iters >> n
+        return not np.allclose(Y, B), Y.tolist()
+    probe("inv_gmres_padding_singular", "inv(A, GMRES(max_iters > n)) @ b (in particular the default max_iters=1000) raises LinAlgError 'Singular matrix' once the Krylov space is exhausted "
+          "(C13 flag arnoldi_padding seen through inv/solve)", gmres_padding, "inv(Transpose(Identity(3)), GMRES(max_iters=4)) @ [[1,2],[0,1],[3,0]]")
+
+    def gmres_padding_c():
         b = np.array([2 - 1j, -1 - 2j, -3 - 1j, -2j, -1 + 2j])
         y = np.asarray(inv(ops.Dense(4 * np.eye(5, dtype=complex)), cola.linalg.GMRES(max_iters=50)) @ b)
-        return not (np.allclose(Y, B) and np.allclose(y, b / 4)), [Y.tolist(), y.tolist()]
-    probe("inv_gmres_padding_singular", "inv(A, GMRES(max_iters > n)) @ b (in particular the default max_iters=1000) raises LinAlgError 'Singular matrix' once the Krylov space is exhausted "
-          "(C13 flag arnoldi_padding seen through inv/solve)", gmres_padding, "inv(Transpose(Identity(3)), GMRES(max_iters=4)) @ [[1,2],[0,1],[3,0]]; inv(Dense(4*eye(5,complex)), GMRES(max_iters=50)) @ [2-1j,-1-2j,-3-1j,-2j,-1+2j]")
+        return not np.allclose(y, b / 4), y.tolist()
+    probe("inv_gmres_padding_singular_complex", "inv(A, GMRES(max_iters >> n)) @ b still raises LinAlgError 'Singular matrix' for a complex operator whose Krylov space is exhausted "
+          "after one step (the padding mask of gmres misses this case)", gmres_padding_c, "inv(Dense(4*eye(5,dtype=complex)), GMRES(max_iters=50)) @ [2-1j,-1-2j,-3-1j,-2j,-1+2j]")
 
     def gmres_breakdown():
         T3 = np.array([[2., 1., 0.], [1., 3., 1.], [0., 1., 4.]])
@@ -225,7 +229,7 @@ def run_impl(case, rnd):
     B = T.arr(Bg, dt)
     BL = T.arr(BLg, dt)
     obs = {}
-    it = n if "inv_gmres_padding_singular" in case.get("present", ()) else 50
+    it = n if {"inv_gmres_padding_singular", "inv_gmres_padding_singular_complex"} & set(case.get("present", ())) else 50
     for alg in ALGS:
         o = dict(alg=alg, perr={})
         with L.Recorder() as rec:
@@ -326,7 +330,7 @@ def oracle(t, io, o, present):
                 bad.append(a)
         if bad and "TIterGMRES" in o["rty"]:
             nan = any("nan" in b_ for b_ in bad)
-            for fl in (("inv_gmres_zero_rhs_nan",) if nan else ()) + ("inv_gmres_padding_singular", "inv_gmres_breakdown_continues"):
+            for fl in (("inv_gmres_zero_rhs_nan",) if nan else ()) + ("inv_gmres_padding_singular", "inv_gmres_padding_singular_complex", "inv_gmres_breakdown_continues"):
                 if fl in present:
                     return bad, fl
         return bad, None
